@@ -5,7 +5,7 @@ with font = NULL and with unhinted fonts of 2 and 3 times the units per em; the 
 (Model/PosModel.v) recomputes them exactly.  (2) the property's own oracle on the API: the same text shaped with font = NULL
 and with an unhinted font of P pixels per em, P anywhere in (0, 4096]: identical glyph ids / attachments / associations,
 origins, advances and segment advance proportional within single-precision rounding — also after justification."""
-import os, struct
+import os, re, struct, shutil, struct
 import vlib
 from props import shapegen as S, engine
 
@@ -241,6 +241,64 @@ def run(chk):
                 if bad:
                     chk.violation('c15:just:%s:%s' % (bad.split(':')[0][:40], ' '.join(l.split()[2:10])[:150]),
                                   'justified line, font of %s ppm vs font = NULL: %s' % (p, bad), dict(cases=[ls[0], l], upem=mt['upem'], ppm=p, got=[outs[0][:1500], outs[ls.index(l)][:1500]]))
+    # a cluster deeper than the cut-off of Slot::finalise (child and sibling links both count) whose slots were positioned once in design
+    # units while the rules ran (a rule that reads position.x): the slots the final positioning does not reach (F35)
+    from props import fontkit as K, cmapgen, c06
+    dbase = K.enrich(open(os.path.join(vlib.REPO, 'tests/fonts', c06.BASE), 'rb').read())
+    dcm = cmapgen.parse_font_cmap(os.path.join(vlib.REPO, 'tests/fonts', c06.BASE))
+    ga, gt = dcm[0x61], dcm[0x74]
+    dprog = [dict(maxloop=3, alpha=[ga, gt], rules=[
+        dict(pre=1, pat=[{ga}, {ga}], acts=[[('T', -1)]]),
+        dict(pre=1, pat=[{ga}, {gt}, {gt}, {gt}], acts=[[('T', -1)], [('T', -2)], [('T', -3)]], con=(1, 'g', -30000, None, None, None, 'posx'))])]
+    ddir = os.path.join(vlib.BUILD, 'fuzzfonts', 'c15d-%s-%d' % (chk.tier, chk.seed))
+    shutil.rmtree(ddir, ignore_errors=True); os.makedirs(ddir)
+    dfp = os.path.join(ddir, 'deep.ttf')
+    open(dfp, 'wb').write(K.build_font(dbase, dprog, 0))
+    dcases = []
+    for na in (20, 97, 98, 99, 100, 120):
+        units = [0x61] * na + [0x74] * 3 + [0x61]
+        dcases.append(S.case_line('deep%d.0' % na, dfp, units, 32, ops=('dump',)))
+        for pp in ('10', '100', '380.221'):
+            dcases.append(S.case_line('deep%d.%s' % (na, pp), dfp, units, 32, ppm=pp, ops=('dump',)))
+    _, dl, _ = vlib.run_pair(None, w, dcases, timeout=1200, shards=2)
+    dres = dict(zip((c.split()[0] for c in dcases), dl))
+    upem_d = struct.unpack('>H', dbase[K.font_tables(dbase)[b'head'][0] + 18:][:2])[0]
+    for na in (20, 97, 98, 99, 100, 120):
+        o0 = dres.get('deep%d.0' % na)
+        if not o0 or 'ABORT' in o0.split()[1:3] or o0.split()[1] in ('NOFACE', 'NULLSEG'):
+            if o0 and 'ABORT' in o0.split()[1:3]:
+                chk.violation('c15:deep-abort', 'shaping a deep cluster aborted: %s' % o0[:200], dict(cases=['deep%d' % na], got=[o0[:300]]))
+            continue
+        b0 = S.parse_dump(' '.join(o0.split(' | ')[0].split()[1:]))
+        # link depth of every slot: parent depth + 1 + position among its parent's children (finalise passes depth + 1 to child and sibling)
+        idx = {sl[1]: k for k, sl in enumerate(b0['slots'])}
+        def ldepth(k, seen=0):
+            sl = b0['slots'][k]
+            if sl[5] == '-1' or seen > 400:
+                return 0
+            par = idx.get(sl[5])
+            if par is None:
+                return 0
+            # children of par in chain order
+            ch, c = [], b0['slots'][par][6]
+            while c != '-1' and c in idx and len(ch) < 400:
+                ch.append(c); c = b0['slots'][idx[c]][7]
+            return ldepth(par, seen + 1) + 1 + (ch.index(sl[1]) if sl[1] in ch else 0)
+        for pp in ('10', '100', '380.221'):
+            o = dres.get('deep%d.%s' % (na, pp))
+            if not o or o.split()[1] in ('NOFACE', 'NULLSEG'):
+                continue
+            other = S.parse_dump(' '.join(o.split(' | ')[0].split()[1:]))
+            bad = compare(dict(upem=upem_d), b0, other, pp)
+            classes.add(('deep', na, bad is None))
+            if bad:
+                m_ = re.match(r'slot (\d+) ', bad)
+                deep = m_ is not None and ldepth(int(m_.group(1))) > 100
+                key = 'c15:depth-cutoff-keeps-stale-position' if deep else 'c15:deep:%s' % bad.split(':')[0][:40]
+                chk.violation(key, 'cluster of %d chained slots + 3, font of %s ppm vs font = NULL: %s%s' % (na, pp, bad, ' [the slot lies more than 100 child / sibling links below its base: Slot::finalise does not visit it and it keeps the '
+                              'design-unit position an earlier internal positionSlots(NULL) gave it]' if deep else ''), dict(cases=[c for c in dcases if c.split()[0] in ('deep%d.0' % na, 'deep%d.%s' % (na, pp))], got=[o0[:600], o[:600]], upem=upem_d, ppm=pp, font_gz_b64=c06.blob(dfp)))
+                break
+    shutil.rmtree(ddir, ignore_errors=True)
     # hand-built attachment forests: exact model + proportionality at arbitrary sizes
     sc = gen_synth(chk, 6000 if chk.tier == 'thorough' else 600)
     _, sl, _ = vlib.run_pair(None, w, sc, timeout=2400)
@@ -288,6 +346,12 @@ def replay(chk, obj):
     cs = rp.get('cases') or [c for c in [(obj.get('broken') or [{}])[-1].get('case')] if c]
     if not cs:
         print('no case'); return 1
+    if rp.get('font_gz_b64'):
+        import base64, zlib
+        tmp = os.path.join(vlib.BUILD, 'fuzzfonts', 'replay'); os.makedirs(tmp, exist_ok=True)
+        fp = os.path.join(tmp, 'replay.ttf')
+        open(fp, 'wb').write(zlib.decompress(base64.b64decode(rp['font_gz_b64'])))
+        cs = [' '.join(c.split()[:2] + [fp] + c.split()[3:]) for c in cs]
     w = engine.build(chk); mexe = vlib.build_model_driver('Pos')
     _, il, _ = vlib.run_pair(None, w, cs, shards=1)
     ml, _, _ = vlib.run_pair(mexe, None, [il[0] or 'x'], shards=1)
